@@ -4,38 +4,10 @@
 From Coq Require Import List NArith Bool Arith.
 Import ListNotations.
 
-(* what one layer does to one package-list file *)
-Inductive op :=
-| Keep                      (* the layer's tar does not mention the file *)
-| Write (c : list N)        (* the tar holds the file; c = the package keys (purl ids) its lines yield *)
-| Delete.                   (* the tar holds a whiteout for the file *)
+Definition mem (p : N) (l : list N) : bool := existsb (N.eqb p) l.
+Definition content (v : option (list N)) : list N := match v with Some c => c | None => [] end.
 
-(* ------------------------------------------------------------------ one location *)
-(* ops : list op, index = chain layer *)
-Section OneLocation.
-  Variable ops : list op.
-
-  Definition op_at (i : nat) : op := nth i ops Keep.
-
-  (* content of the file in the image-up-to-layer view i (None = no such file) *)
-  Fixpoint view_upto (l : list op) (acc : option (list N)) : option (list N) :=
-    match l with
-    | [] => acc
-    | Keep :: r => view_upto r acc
-    | Write c :: r => view_upto r (Some c)
-    | Delete :: r => view_upto r None
-    end.
-  Definition view (i : nat) : option (list N) := view_upto (firstn (S i) ops) None.
-
-  (* filesExistInLayer: the layer's own tree holds a stat-able node for the file *)
-  Definition diff (i : nat) : bool := match op_at i with Write _ => true | _ => false end.
-
-  Definition mem (p : N) (l : list N) : bool := existsb (N.eqb p) l.
-  Definition content (v : option (list N)) : list N := match v with Some c => c | None => [] end.
-  Definition present (p : N) (i : nat) : bool := mem p (content (view i)).
-End OneLocation.
-
-(* ------------------------------------------------------------------ the cache and the loop *)
+(* ------------------------------------------------------------------ the cache *)
 (* locationIndexToPackages: map[locationAndIndex][]*extractor.Package, as an association list *)
 Definition cache := list ((N * nat) * list N).
 Fixpoint cache_get (c : cache) (loc : N) (i : nat) : option (list N) :=
@@ -45,75 +17,171 @@ Fixpoint cache_get (c : cache) (loc : N) (i : nat) : option (list N) :=
   end.
 Definition cache_put (c : cache) (loc : N) (i : nat) (v : list N) : cache := ((loc, i), v) :: c.
 
-(* the loop `for i := len(chainLayers) - 2; i >= 0; i--` for one package; k = i+1 layers still to
-   visit, last = lastScannedLayerIndex.  Returns the attributed index and the cache.
-     cached                      -> oldPackages = cached
-     view-i Stat not-exist       -> oldPackages = []
-     filesExistInLayer(layer i)  -> oldPackages = extract(view i)
-     otherwise                   -> continue           (no cache entry, lastScanned unchanged)
-     cache[(loc,i)] = oldPackages
-     package not in oldPackages  -> origin = lastScanned, stop
-     lastScanned = i
-   falling off the end           -> layer 0 *)
-Fixpoint walk (ops : list op) (loc p : N) (k last : nat) (c : cache) : nat * cache :=
-  match k with
-  | 0 => (0, c)
-  | S i =>
-      let decide (old : list N) :=
-        let c' := cache_put c loc i old in
-        if mem p old then walk ops loc p i i c' else (last, c') in
-      match cache_get c loc i with
-      | Some old => decide old
-      | None =>
-          match view ops i with
-          | None => decide []
-          | Some cont => if diff ops i then decide cont else walk ops loc p i last c
-          end
-      end
-  end.
+(* package key 0 is reserved: a line that makes the harness extractor cancel the scan context *)
+Definition cancel_marker : N := 0%N.
 
-Definition trace_one (ops : list op) (loc p : N) (c : cache) : nat * cache :=
-  let n := length ops in walk ops loc p (pred n) (pred n) c.
+(* ------------------------------------------------------------------ the loop, over abstract views *)
+Section Walk.
+  (* what the package's first location shows in the image-up-to-layer view i:
+     None = Stat says not-exist, Some c = the package keys extraction of that view yields *)
+  Variable view : nat -> option (list N).
+  (* filesExistInLayer(chainLayers[i], pkg.Locations): layer i's own tree holds a stat-able node for
+     one of the package's locations *)
+  Variable exist : nat -> bool.
 
-(* ------------------------------------------------------------------ several locations *)
-(* a chain layer: build command id, diff-ID id (0 = none: empty layer), ops per location *)
-Record clayer := mkCL { cl_cmd : N; cl_diff : N; cl_empty : bool; cl_ops : list (N * op) }.
+  Definition present (p : N) (i : nat) : bool := mem p (content (view i)).
 
-Fixpoint assoc_op (l : list (N * op)) (loc : N) : op :=
+  (* the loop `for i := len(chainLayers) - 2; i >= 0; i--` for one package; k = i+1 layers still to
+     visit, last = lastScannedLayerIndex, cancelled = the scan context is already cancelled.
+       cached                      -> oldPackages = cached
+       view-i Stat not-exist       -> oldPackages = []
+       filesExistInLayer(layer i)  -> oldPackages, err = filesystem.Run(view i);  err -> break
+       otherwise                   -> continue        (no cache entry, lastScanned unchanged)
+       cache[(loc,i)] = oldPackages
+       package not in oldPackages  -> origin = lastScanned, stop
+       lastScanned = i
+     falling off the end, or break -> layer 0
+     filesystem.Run fails iff the context is cancelled when it starts (handleFile checks ctx.Err()
+     first); an extractor that cancels the context while it reads a file still delivers that file. *)
+  Fixpoint walk (loc p : N) (k last : nat) (c : cache) (cancelled : bool) : nat * cache * bool :=
+    match k with
+    | 0 => (0, c, cancelled)
+    | S i =>
+        let decide (old : list N) (cn : bool) :=
+          let c' := cache_put c loc i old in
+          if mem p old then walk loc p i i c' cn else (last, c', cn) in
+        match cache_get c loc i with
+        | Some old => decide old cancelled
+        | None =>
+            match view i with
+            | None => decide [] cancelled
+            | Some cont =>
+                if exist i then
+                  if cancelled then (0, c, true)                         (* Run error: break *)
+                  else decide cont (mem cancel_marker cont)
+                else walk loc p i last c cancelled
+            end
+        end
+    end.
+
+  (* ---------------------------------------------------------------- spec *)
+  (* n = number of chain layers.  The earliest L such that the package is present in every view L .. n-1 *)
+  Definition present_from (n : nat) (p : N) (L : nat) : bool := forallb (present p) (seq L (n - L)).
+
+  Definition origin (n : nat) (p : N) : nat :=
+    match find (present_from n p) (seq 0 n) with
+    | Some L => L
+    | None => pred n       (* not in the final view: never asked *)
+    end.
+
+  (* declarative reading: present in every view from L to the last one, and L is the first layer or
+     the package is not in the view just before L (presence-from-L is upward closed in L, so this is
+     the least such L; origin_correct proves minimality separately) *)
+  Definition is_origin (n : nat) (p : N) (L : nat) : Prop :=
+    L < n /\
+    (forall j, L <= j -> j < n -> present p j = true) /\
+    (L = 0 \/ present p (pred L) = false).
+
+  (* a layer whose own tree holds none of the package's files leaves the view of the first location
+     unchanged, and is not the first layer when that view shows a file *)
+  Definition skip_sound (n : nat) : Prop :=
+    forall i, i < n -> exist i = false -> view i <> None -> i <> 0 /\ view i = view (pred i).
+
+  (* no run of the extractor cancels the context *)
+  Definition no_cancel (n : nat) : Prop :=
+    forall i cont, i < n -> view i = Some cont -> mem cancel_marker cont = false.
+End Walk.
+
+(* ------------------------------------------------------------------ whole-file operations on one location *)
+Inductive op :=
+| Keep                      (* the layer's tar does not mention the file *)
+| Write (c : list N)        (* the tar holds the file; c = the package keys its lines yield *)
+| Delete.                   (* the tar holds a whiteout for the file *)
+
+Section OneLocation.
+  Variable ops : list op.     (* index = chain layer *)
+
+  Definition op_at (i : nat) : op := nth i ops Keep.
+
+  Fixpoint view_upto (l : list op) (acc : option (list N)) : option (list N) :=
+    match l with
+    | [] => acc
+    | Keep :: r => view_upto r acc
+    | Write c :: r => view_upto r (Some c)
+    | Delete :: r => view_upto r None
+    end.
+  (* content of the file in the image-up-to-layer view i (None = no such file) *)
+  Definition view (i : nat) : option (list N) := view_upto (firstn (S i) ops) None.
+
+  Definition diff (i : nat) : bool := match op_at i with Write _ => true | _ => false end.
+End OneLocation.
+
+(* trace of one package whose first location has the whole-file history ops; extra i = one of its
+   other locations is written by layer i *)
+Definition trace_one (ops : list op) (extra : nat -> bool) (loc p : N) (c : cache) : nat * cache * bool :=
+  let n := length ops in
+  walk (view ops) (fun i => diff ops i || extra i) loc p (pred n) (pred n) c false.
+
+(* ------------------------------------------------------------------ images *)
+(* what a layer does to a location: as above, or it puts a symbolic link there *)
+Inductive lop :=
+| LKeep
+| LWrite (c : list N)
+| LDelete
+| LLink (t : N).            (* symlink to the location t *)
+
+(* a chain layer: build command id, diff-ID id (0 = none: empty layer), operations per location *)
+Record clayer := mkCL { cl_cmd : N; cl_diff : N; cl_empty : bool; cl_ops : list (N * lop) }.
+
+Fixpoint assoc_op (l : list (N * lop)) (loc : N) : lop :=
   match l with
-  | [] => Keep
+  | [] => LKeep
   | (k, o) :: r => if N.eqb k loc then o else assoc_op r loc
   end.
 
-Definition ops_of (h : list clayer) (loc : N) : list op := map (fun L => assoc_op (cl_ops L) loc) h.
+Definition lops_of (h : list clayer) (loc : N) : list lop := map (fun L => assoc_op (cl_ops L) loc) h.
 
-(* PopulateLayerDetails over inventory.Packages (in the given order), one shared cache *)
-Fixpoint trace_all (h : list clayer) (pkgs : list (N * N)) (c : cache) : list nat :=
+Inductive fstate := SNone | SFile (c : list N) | SSym (t : N).
+Definition lstep (acc : fstate) (o : lop) : fstate :=
+  match o with LKeep => acc | LWrite c => SFile c | LDelete => SNone | LLink t => SSym t end.
+Definition lstate (h : list clayer) (loc : N) (i : nat) : fstate :=
+  fold_left lstep (firstn (S i) (lops_of h loc)) SNone.
+
+(* Stat + extraction of loc in the chain-layer view i: a link is followed (the harness only links to
+   regular files; a link to anything else shows nothing) *)
+Definition lview (h : list clayer) (loc : N) (i : nat) : option (list N) :=
+  match lstate h loc i with
+  | SNone => None
+  | SFile c => Some c
+  | SSym t => match lstate h t i with SFile c => Some c | _ => None end
+  end.
+
+(* filesExistInLayer: Stat on layer i's OWN tree, whose FS has MaxSymlinkDepth 0 -- a symlink node
+   never stats successfully there (depth error, or not-exist when the target is in another layer) *)
+Definition lexist (h : list clayer) (locs : list N) (i : nat) : bool :=
+  existsb (fun l => match assoc_op (cl_ops (nth i h (mkCL 0 0 true []))) l with LWrite _ => true | _ => false end) locs.
+
+(* a reported package: its locations (first one = where it was extracted) and its key *)
+Definition pkgref := (list N * N)%type.
+Definition primary (locs : list N) : N := hd 0%N locs.
+
+(* PopulateLayerDetails over inventory.Packages (in the given order), one shared cache, one context *)
+Fixpoint trace_all (h : list clayer) (pkgs : list pkgref) (c : cache) (cancelled : bool) : list nat :=
   match pkgs with
   | [] => []
-  | (loc, p) :: r =>
-      let (o, c') := trace_one (ops_of h loc) loc p c in
-      o :: trace_all h r c'
+  | (locs, p) :: r =>
+      let n := length h in
+      let '(o, c', cn) := walk (lview h (primary locs)) (lexist h locs) (primary locs) p (pred n) (pred n) c cancelled in
+      o :: trace_all h r c' cn
   end.
 
-(* ------------------------------------------------------------------ spec *)
-(* the earliest L such that the package is present in every view L .. n-1 *)
-Definition present_from (ops : list op) (p : N) (L : nat) : bool :=
-  forallb (present ops p) (seq L (length ops - L)).
+(* the location's history consists of whole-file operations only *)
+Definition link_free (h : list clayer) (loc : N) : bool :=
+  forallb (fun o => match o with LLink _ => false | _ => true end) (lops_of h loc).
 
-Definition origin (ops : list op) (p : N) : nat :=
-  match find (present_from ops p) (seq 0 (length ops)) with
-  | Some L => L
-  | None => pred (length ops)       (* not in the final view: never asked *)
-  end.
-
-(* declarative reading: present in every view from L to the last one, and L is the first layer or
-   the package is not in the view just before L (presence-from-L is upward closed in L, so this is
-   the least such L; origin_correct proves minimality separately) *)
-Definition is_origin (ops : list op) (p : N) (L : nat) : Prop :=
-  L < length ops /\
-  (forall j, L <= j -> j < length ops -> present ops p j = true) /\
-  (L = 0 \/ present ops p (pred L) = false).
+Definition strip (o : lop) : op :=
+  match o with LKeep => Keep | LWrite c => Write c | LDelete => Delete | LLink _ => Keep end.
+Definition ops_of (h : list clayer) (loc : N) : list op := map strip (lops_of h loc).
 
 (* ------------------------------------------------------------------ history alignment *)
 (* image.go initializeChainLayers: v1 layers (diff ids) + config history -> chain layers *)
@@ -140,22 +208,11 @@ Definition align (hist : list hentry) (v1 : list N) : option (list (N * N * bool
   then align_loop hist v1
   else Some (map (fun d => (0%N, d, false)) v1).
 
-(* which v1 layer index feeds chain layer k (None for empty layers) *)
-Fixpoint v1_index_of (l : list (N * N * bool)) (k : nat) (next : nat) : option nat :=
-  match l with
-  | [] => None
-  | (_, _, e) :: r =>
-      match k with
-      | 0 => if e then None else Some next
-      | S k' => v1_index_of r k' (if e then next else S next)
-      end
-  end.
-
 (* ------------------------------------------------------------------ cases *)
 (* a generated image: history entries and v1 layers (diff id, ops); observed per package:
-   location, package key, LayerDetails.Index, diff id, command *)
-Record vlayer := mkVL { vl_diff : N; vl_ops : list (N * op) }.
-Record pobs := mkP { po_loc : N; po_pkg : N; po_index : nat; po_diff : N; po_cmd : N }.
+   locations, package key, LayerDetails.Index, diff id, command, InBaseImage *)
+Record vlayer := mkVL { vl_diff : N; vl_ops : list (N * lop) }.
+Record pobs := mkP { po_locs : list N; po_pkg : N; po_index : nat; po_diff : N; po_cmd : N; po_inbase : bool }.
 Record tcase := mkT { t_hist : list hentry; t_v1 : list vlayer; t_obs : list pobs }.
 
 (* chain layers of the case: aligned metadata + the ops of the v1 layer that feeds them *)
@@ -185,38 +242,68 @@ Definition det_eqb (a b : nat * N * N) : bool :=
   match a, b with (i, d, c), (j, e, f) => Nat.eqb i j && N.eqb d e && N.eqb c f end.
 
 (* the packages reported for the final view, in the order the implementation processed them *)
-Definition case_pkgs (c : tcase) : list (N * N) := map (fun o => (po_loc o, po_pkg o)) (t_obs c).
+Definition case_pkgs (c : tcase) : list pkgref := map (fun o => (po_locs o, po_pkg o)) (t_obs c).
 
-(* every reported package is in the final view, and every package of the final view is reported
-   (as a multiset per location this is the extractor's business; membership is what trace needs) *)
+(* every reported package is in the final view ... *)
 Definition reported_ok (h : list clayer) (c : tcase) : bool :=
-  forallb (fun o => present (ops_of h (po_loc o)) (po_pkg o) (pred (length h))) (t_obs c).
+  forallb (fun o => mem (po_pkg o) (content (lview h (primary (po_locs o)) (pred (length h))))) (t_obs c).
 
+(* ... and every package of the final view of every regular file is reported *)
 Definition all_locs (h : list clayer) : list N := flat_map (fun L => map fst (cl_ops L)) h.
 
 Definition all_reported (h : list clayer) (c : tcase) : bool :=
   forallb (fun loc =>
-    forallb (fun p => existsb (fun o => N.eqb (po_loc o) loc && N.eqb (po_pkg o) p) (t_obs c))
-            (content (view (ops_of h loc) (pred (length h)))))
-    (all_locs h).
+    match lstate h loc (pred (length h)) with
+    | SFile cont =>
+        forallb (fun p => N.eqb p cancel_marker ||
+                          existsb (fun o => N.eqb (primary (po_locs o)) loc && N.eqb (po_pkg o) p) (t_obs c)) cont
+    | _ => true
+    end) (all_locs h).
+
+(* well-formed harness image: links point at locations that are never links themselves *)
+Definition links_flat (h : list clayer) : bool :=
+  forallb (fun L => forallb (fun lo => match snd lo with LLink t => link_free h t | _ => true end) (cl_ops L)) h.
 
 Definition case_model_ok (c : tcase) : bool :=
   match chain_layers c with
   | None => false
   | Some h =>
-      reported_ok h c && all_reported h c &&
-      let idx := trace_all h (case_pkgs c) [] in
+      links_flat h && reported_ok h c && all_reported h c &&
+      forallb (fun o => negb (po_inbase o)) (t_obs c) &&        (* trace.go sets InBaseImage: false, always *)
+      let idx := trace_all h (case_pkgs c) [] false in
       Nat.eqb (length idx) (length (t_obs c)) &&
       forallb (fun io => det_eqb (details h (fst io)) (obs_details (snd io))) (combine idx (t_obs c))
   end.
 
 (* the property, evaluated on what the implementation returned: the layer it names is the origin
-   computed by brute force, and diff id / command are those of that layer *)
+   computed by brute force over the views, and diff id / command are those of that layer.  Claimed on
+   the domain D: the package's first location is never a symbolic link and no scan context is
+   cancelled (cases outside D are only compared with the model). *)
+Definition pkg_in_D (h : list clayer) (o : pobs) : bool := link_free h (primary (po_locs o)).
+
+Definition case_cancels (h : list clayer) : bool :=
+  existsb (fun L => existsb (fun lo => match snd lo with LWrite c => mem cancel_marker c | _ => false end) (cl_ops L)) h.
+
+Definition pkg_spec_ok (h : list clayer) (o : pobs) : bool :=
+  det_eqb (details h (origin (lview h (primary (po_locs o))) (length h) (po_pkg o))) (obs_details o).
+
 Definition case_spec_ok (c : tcase) : bool :=
   match chain_layers c with
   | None => false
-  | Some h =>
-      forallb (fun o => det_eqb (details h (origin (ops_of h (po_loc o)) (po_pkg o))) (obs_details o)) (t_obs c)
+  | Some h => case_cancels h || forallb (fun o => negb (pkg_in_D h o) || pkg_spec_ok h o) (t_obs c)
+  end.
+
+(* the property as written, on everything (used to replay known findings) *)
+Definition case_spec_strict_ok (c : tcase) : bool :=
+  match chain_layers c with
+  | None => false
+  | Some h => forallb (pkg_spec_ok h) (t_obs c)
+  end.
+
+Definition case_outside_D (c : tcase) : nat :=
+  match chain_layers c with
+  | None => 0
+  | Some h => if case_cancels h then length (t_obs c) else length (filter (fun o => negb (pkg_in_D h o)) (t_obs c))
   end.
 
 Fixpoint bad_indices {A} (f : A -> bool) (l : list A) (i : nat) : list nat :=
@@ -224,8 +311,3 @@ Fixpoint bad_indices {A} (f : A -> bool) (l : list A) (i : nat) : list nat :=
   | [] => []
   | x :: l' => if f x then bad_indices f l' (S i) else i :: bad_indices f l' (S i)
   end.
-
-(* non-triviality (DESIGN section 14): >= 2 layers touch the file and >= 1 package changes presence *)
-Definition touches (ops : list op) : nat := length (filter (fun o => match o with Keep => false | _ => true end) ops).
-Definition changes_presence (ops : list op) (p : N) : bool :=
-  existsb (fun i => negb (Bool.eqb (present ops p i) (present ops p (S i)))) (seq 0 (pred (length ops))).
